@@ -101,7 +101,7 @@ def operations(rng, G, g, prev=()):
         t = G.reference_type_by_browsename("HierarchicalReferences")
         return ("subtypes",), lambda: nav.subtypes_of_nodes([t], G.nodes, G.references)
 
-import re
+import re, random
 NOWRE = re.compile(r'PublicationDate="\d{4}-\d\d-\d\dT\d\d:\d\d:\d\d\.\d{6}\+00:00"')
 def run_op(thunk):
     try:
@@ -124,7 +124,14 @@ def check(ctx):
     reqs = []; meta = []
     try:
         for ci in range(12 if ctx.quick() else 120):
-            g, ds = writeprops.make_graph(rng, True, hostile=rng.random() < 0.5, clash=rng.random() < 0.7)
+            if ci == 0:
+                # fixed first case: two non-base namespaces that refer to each other, exported one after the other (independent of the seed)
+                for fs in range(200):
+                    frng = random.Random(1500 + fs)
+                    g, ds = writeprops.make_graph(frng, True, hostile=False, clash=False)
+                    if any(a[0] != b[0] and a[0] in g.uris and b[0] in g.uris and a in g.nodes and b in g.nodes for a, b, _ in g.refs): break
+            else:
+                g, ds = writeprops.make_graph(rng, True, hostile=rng.random() < 0.5, clash=rng.random() < 0.7)
             files = [(n, docs.render(d, rng)) for n, d, _ in ds]
             paths = graphprops.write_files(work, files)
             st, G = graphprops.build(paths)
@@ -145,11 +152,21 @@ def check(ctx):
                 if len(set(cls_)) > 1:
                     one = [c for c in sorted(set(cls_)) if c in TYPED and cls_.count(c) == 1]
                     if one: opening = [("typed_lookup", nm_, TYPED[one[0]]), ("lookup", nm_)]; break
+            # exporting a graph: every namespace written one after the other, in table order and (every second case) back again
+            wuris = [u for u in G.namespaces[1:] if u in g.uris]
+            if len(wuris) >= 2 and ci % 2 == 0:
+                opening = opening + [("write", u, True, None) for u in wuris] + ([("write", u, False, None) for u in reversed(wuris)] if ci % 4 == 0 else [])
             for step in range(n_ops + len(opening)):
                 st_before = rng.getstate()
                 if step < len(opening):
                     od = opening[step]
-                    mk = (lambda GG, od=od: (lambda: getattr(GG, od[2])(od[1])) if od[0] == "typed_lookup" else (lambda: GG.nodeid_by_browsename(od[1])))
+                    def mk(GG, od=od):
+                        if od[0] == "typed_lookup": return lambda: getattr(GG, od[2])(od[1])
+                        if od[0] == "write":
+                            def f():
+                                s_ = io.StringIO(); GG.write_nodeset(s_, od[1], include_outgoing_instance_level_references=od[2], last_modified=writeprops.T0, publication_date=writeprops.T0, new_model_version=od[3]); return s_.getvalue()
+                            return f
+                        return lambda: GG.nodeid_by_browsename(od[1])
                     desc, thunk = od, mk(G)
                 else: desc, thunk = operations(rng, G, g, list(hist))
                 out = run_op(thunk)
@@ -159,7 +176,8 @@ def check(ctx):
                 if d: ctx.fail("C15/graph-changed:" + desc[0], case, "after %r: %s" % (desc, d)); break
                 # the same operation on the fresh graph
                 rng2_state = rng.getstate(); rng.setstate(st_before)
-                fresh = copy.deepcopy(pristine)
+                # a write is compared with the write of a graph built anew from the files (nothing of this history can have touched it)
+                fresh = (graphprops.build(paths)[1] if desc[0] == "write" else None) or copy.deepcopy(pristine)
                 if step < len(opening): desc2, thunk2 = desc, mk(fresh)
                 else: desc2, thunk2 = operations(rng, fresh, g, list(hist[:-1]))
                 rng.setstate(rng2_state)
